@@ -412,7 +412,14 @@ def _eq(a, b):
     if isinstance(a, float) and isinstance(b, float) and math.isnan(a) and math.isnan(b):
         return [True]
     if isinstance(a, np.ndarray) or isinstance(b, np.ndarray):
-        return [bool(np.array_equal(a, b))]
+        try:
+            aa, bb = np.asarray(a, dtype=float), np.asarray(b, dtype=float)
+            return [bool(aa.shape == bb.shape and np.allclose(aa, bb, rtol=1e-9, atol=1e-9))]
+        except (TypeError, ValueError):
+            return [bool(np.array_equal(a, b))]
+    if isinstance(a, (float, np.floating)) and isinstance(b, (float, np.floating, int)) or isinstance(b, (float, np.floating)) and isinstance(a, int):
+        # concrete binary64 values recomputed on another path may differ by rounding (the code itself compares with isclose)
+        return [bool(abs(float(a) - float(b)) <= 1e-9 * (1.0 + abs(float(a))))]
     r = a == b
     return [bool(r)]
 
